@@ -142,8 +142,10 @@ func listenerScenario(id string, seed int64, lt *layoutTables, cycles int, recs 
 	probe := listenUDP()
 	addr := udpAddrPort(probe)
 	probe.Close()
+	// (the client's request timeout has nothing to do with listening: zero, negative, an hour)
+	reqTimeout := []time.Duration{time.Second, 0, -time.Second, time.Hour, 50 * time.Millisecond}[int(uint64(seed)%5)]
 	u := uhppote.NewUHPPOTE(types.BindAddr{AddrPort: netip.AddrPortFrom(netip.AddrFrom4([4]byte{127, 0, 0, 1}), 0)},
-		types.BroadcastAddr{}, types.ListenAddr{AddrPort: addr}, time.Second, nil, false)
+		types.BroadcastAddr{}, types.ListenAddr{AddrPort: addr}, reqTimeout, nil, false)
 
 	out := []M{}
 	for cy := 0; cy < cycles; cy++ {
@@ -256,13 +258,26 @@ func listenerScenario(id string, seed int64, lt *layoutTables, cycles int, recs 
 		out = append(out, M{"id": fmt.Sprintf("%s-c%d", id, cy), "ev": evs})
 		// decode fidelity + stability: re-read every delivered status now
 		l.mu.Lock()
-		for _, d := range l.delivered {
+		for i, d := range l.delivered {
 			smu.Lock()
 			b := sentBytes[d.tag]
 			smu.Unlock()
 			var later M
 			if pn, msg := guard(func() { later = projStatus(d.s) }); pn {
 				later = M{"t": "panic", "msg": msg}
+			}
+			if i == 0 && d.s != nil {
+				// the application is done with the first status and scribbles over its maps: the statuses delivered after it
+				// (re-read below) are none of its business
+				guard(func() {
+					for k := range d.s.DoorState {
+						d.s.DoorState[k] = !d.s.DoorState[k]
+					}
+					for k := range d.s.DoorButton {
+						d.s.DoorButton[k] = !d.s.DoorButton[k]
+					}
+					d.s.DoorState[9], d.s.DoorButton[9] = true, true
+				})
 			}
 			recs <- M{"op": "Event", "b": ints(b), "status": d.at, "later": later, "rig": "L"}
 		}
